@@ -3,7 +3,8 @@
 package main
 
 import (
-	"crypto/ecdsa"
+	"bytes"
+	"crypto"
 	"crypto/x509"
 	"encoding/json"
 	"fmt"
@@ -56,6 +57,7 @@ type childOut struct {
 	WallMs           int64    `json:"wall_ms"`
 	Lookups          string   `json:"lookups"`
 	TotalAllocDelta  uint64   `json:"total_alloc_delta"`
+	LargeObjects     []string `json:"large_objects"` // repository allocation sites whose average object exceeds 1 MiB
 	BodyBytes        int64    `json:"body_bytes"`
 }
 
@@ -104,6 +106,7 @@ func childMain(cfgPath string) {
 	done := make(chan struct{})
 	var heapSamples []uint64
 	siteMax := map[string]int64{}
+	largeSeen := map[string]bool{}
 	go func() {
 		defer close(done)
 		var recs []runtime.MemProfileRecord
@@ -125,6 +128,13 @@ func childMain(cfgPath string) {
 			var repo, ldb, other int64
 			perSite := map[string]int64{}
 			for _, r := range recs[:n] {
+				// a single object larger than 1 MiB allocated from repository code is a buffer that
+				// scales with the document (such objects are always sampled, also when already freed)
+				if r.AllocObjects > 0 && r.AllocBytes/r.AllocObjects > 1<<20 {
+					if c, site := classify(r.Stack()); c == "repo" {
+						largeSeen[fmt.Sprintf("%s avg-object=%d bytes", site, r.AllocBytes/r.AllocObjects)] = true
+					}
+				}
 				inuse := r.InUseBytes()
 				if inuse <= 0 {
 					continue
@@ -240,7 +250,8 @@ func childMain(cfgPath string) {
 		keyDER, _ := os.ReadFile(filepath.Join(cfg.Dir, "int.key"))
 		root, _ := x509.ParseCertificate(rootDER)
 		in, _ := x509.ParseCertificate(intDER)
-		key, _ := x509.ParseECPrivateKey(keyDER)
+		anyKey, _ := x509.ParsePKCS8PrivateKey(keyDER)
+		key, _ := anyKey.(crypto.Signer)
 		ca := &pki.CA{Cert: in, Key: key}
 		l2.InstallHooks()
 		wd := filepath.Join(cfg.Dir, "wd")
@@ -302,6 +313,9 @@ func childMain(cfgPath string) {
 		}
 		out.TopRepoSites = append(out.TopRepoSites, fmt.Sprintf("%s=%d", x.k, x.v))
 	}
+	for k := range largeSeen {
+		out.LargeObjects = append(out.LargeObjects, k)
+	}
 	ob, _ := json.Marshal(out)
 	_ = os.WriteFile(filepath.Join(cfg.Dir, "out.json"), ob, 0644)
 }
@@ -334,16 +348,17 @@ func main() {
 	}
 	var cases []cs
 	dirN := 0
-	mkdir := func() string {
+	mkdirFor := func(ca *pki.CA) string {
 		dirN++
 		d := filepath.Join(scratch, fmt.Sprintf("c%d", dirN))
 		_ = os.MkdirAll(d, 0755)
 		_ = os.WriteFile(filepath.Join(d, "root.der"), root.Cert.Raw, 0644)
-		_ = os.WriteFile(filepath.Join(d, "int.der"), in.Cert.Raw, 0644)
-		kb, _ := x509.MarshalECPrivateKey(in.Key.(*ecdsa.PrivateKey))
+		_ = os.WriteFile(filepath.Join(d, "int.der"), ca.Cert.Raw, 0644)
+		kb, _ := x509.MarshalPKCS8PrivateKey(ca.Key)
 		_ = os.WriteFile(filepath.Join(d, "int.key"), kb, 0600)
 		return d
 	}
+	mkdir := func() string { return mkdirFor(in) }
 	for _, n := range sizes {
 		entries := gen.Entries(rng, gen.Opts{N: n, SerialWidth: 10, Exts: 1})
 		doc := gen.SpecFor(in, entries).Build(in.Key).DER
@@ -369,6 +384,55 @@ func main() {
 		entries = nil
 		doc = nil
 		runtime.GC()
+	}
+	// a DER document without any 0x0A byte before its last few hundred bytes: anything that scans
+	// for a line end (PEM sniffing) must still not buffer the document
+	{
+		n := sizes[len(sizes)-1]
+		if n > 1000000 {
+			n = 1000000
+		}
+		rsaIn := root.Issue(pki.CertOpts{CN: "C17 RSA issuing", IsCA: true, Key: pki.RSAKey(0)})
+		var doc []byte
+		for try := 0; try < 60; try++ {
+			es := make([]crlgen.Entry, 0, n+try)
+			seen := map[string]bool{}
+			for len(es) < n+try {
+				b := make([]byte, 9)
+				for i := range b {
+					for {
+						b[i] = byte(1 + rng.Intn(126))
+						if b[i] != 0x0a {
+							break
+						}
+					}
+				}
+				if seen[string(b)] {
+					continue
+				}
+				seen[string(b)] = true
+				es = append(es, crlgen.Entry{Serial: new(big.Int).SetBytes(b), Date: gen.BaseTime})
+			}
+			sp := gen.SpecFor(rsaIn, es)
+			sp.Exts = [][]byte{crlgen.CRLNumberExt(big.NewInt(int64(7 + try)))}
+			d := sp.Build(rsaIn.Key).DER
+			first := bytes.IndexByte(d, 0x0a)
+			if first < 0 || first > len(d)-2000 {
+				doc = d
+				listed := []string{es[0].Serial.String(), es[len(es)/2].Serial.String(), es[len(es)-1].Serial.String()}
+				lb, _ := json.Marshal(listed)
+				f := filepath.Join(scratch, "newline-free.der")
+				_ = os.WriteFile(f, doc, 0644)
+				cases = append(cases, cs{childCfg{Mode: "reader", File: f, Dir: mkdirFor(rsaIn), N: len(es)}, fmt.Sprintf("reader n=%d der-without-0x0A-byte", len(es))})
+				d2 := mkdirFor(rsaIn)
+				_ = os.WriteFile(filepath.Join(d2, "listed.json"), lb, 0644)
+				cases = append(cases, cs{childCfg{Mode: "disk-path", File: f, Dir: d2, N: len(es)}, fmt.Sprintf("disk-path n=%d der-without-0x0A-byte", len(es))})
+				break
+			}
+		}
+		if doc == nil {
+			run.Inconclusive("could not build a DER document free of 0x0A bytes")
+		}
 	}
 	// loaders: the body is only copied, never parsed; a large body makes buffering visible
 	bodyMB := 128
@@ -432,6 +496,10 @@ func main() {
 		if r.MaxRepoInUse > 1*mib {
 			ok = false
 			run.Violation(comp+".repository-retention-grows", fmt.Sprintf("%s: %d bytes in use attributed to repository allocation sites (bound 1 MiB); top sites: %v", c.desc, r.MaxRepoInUse, r.TopRepoSites), rp)
+		}
+		if len(r.LargeObjects) > 0 && !strings.HasPrefix(comp, "loader") {
+			ok = false
+			run.Violation(comp+".document-sized-buffer", fmt.Sprintf("%s: repository code allocated single objects larger than 1 MiB: %v", c.desc, r.LargeObjects), rp)
 		}
 		if r.MaxLevelDBInUse > 96*mib {
 			ok = false
